@@ -1181,7 +1181,7 @@ pub fn flood_bs(seed: u64) -> Scenario {
         _ => {}
     }
     let read = match rng.gen_range(0..3) {
-        0 => ReadPol { idle: true, ..ReadPol::default() },
+        0 => ReadPol { idle: true, hold_q: Some(1000), ..ReadPol::default() },
         1 => ReadPol { release: "never".into(), ..ReadPol::default() },
         _ => ReadPol::default(),
     };
@@ -1192,9 +1192,17 @@ pub fn flood_bs(seed: u64) -> Scenario {
     };
     s.srv.push(SrvProg { ops, read, note: String::new() });
     // (the refusal burst is costly to validate: one scenario in 16)
-    let kind = if seed % 16 == 5 { 14 } else if seed % 16 == 11 { 15 } else { rng.gen_range(0..14) };
-    let n = if kind == 14 { 1300 } else if kind == 15 { pick(&mut rng, &[30usize, 80]) } else if matches!(kind, 6 | 7) { pick(&mut rng, &[300usize, 2500, 6000]) } else if matches!(kind, 3 | 4 | 5 | 9) { pick(&mut rng, &[60usize, 250, 600, 1200]) } else { pick(&mut rng, &[40usize, 120, 300]) };
+    let kind = if seed % 16 == 5 { 14 } else if seed % 16 == 11 { 15 } else if seed % 16 == 3 { 16 } else { rng.gen_range(0..14) };
+    let n = if kind == 14 { 1300 } else if kind == 16 { 1500 } else if kind == 15 { pick(&mut rng, &[30usize, 80]) } else if matches!(kind, 6 | 7) { pick(&mut rng, &[300usize, 2500, 6000]) } else if matches!(kind, 3 | 4) { pick(&mut rng, &[250usize, 1200, 2500]) } else if matches!(kind, 5 | 9) { pick(&mut rng, &[60usize, 250, 600, 1200]) } else { pick(&mut rng, &[40usize, 120, 300]) };
     let every = if kind == 14 { 100_000 } else if kind == 15 { 1 } else { pick(&mut rng, &[7usize, 50, 200]) };
+    if kind == 16 {
+        // tiny / empty DATA padded up to the size of a "large" frame, against an application that accepts but does not read
+        s.srv_no_accept = false;
+        s.srv_accept_budget = None;
+        s.srv[0].read = ReadPol { idle: true, hold_q: Some(1000), ..ReadPol::default() };
+        s.scfg.iws = Some(65535);
+        s.scfg.data_frame_budget = Some(pick(&mut rng, &[255usize, 2560]));
+    }
     if kind == 15 {
         // answered-then-reset cycles against a blocked socket: the application answers every request with a body that
         // cannot be written, then the peer resets the stream
@@ -1215,6 +1223,7 @@ pub fn flood_bs(seed: u64) -> Scenario {
     let fr = |ty: u8, fl: u8, sid: u32, p: &[u8]| PeerStep::Frame { ty, fl, sid, hex: hx(p) };
     let mut steps = vec![];
     let mut sid = 1u32;
+    let tiny_pad = pick(&mut rng, &[None, None, Some(0u8), Some(254), Some(255)]);
     // a victim stream that stays open
     steps.push(hdr(sid, false));
     let open = sid;
@@ -1242,12 +1251,13 @@ pub fn flood_bs(seed: u64) -> Scenario {
     for i in 0..(if kind == 14 { 0 } else { n }) {
         let k = if kind == 13 { rng.gen_range(0..13) } else { kind };
         match k {
+            16 => steps.push(PeerStep::Data { sid: open, n: if seed % 32 == 3 { 1 } else { 0 }, eos: false, pad: Some(255) }),
             15 => { steps.push(hdr(sid, true)); steps.push(PeerStep::WaitQ); steps.push(PeerStep::Rst { sid, code: 8 }); sid += 2; }
             0 => { steps.push(hdr(sid, false)); steps.push(PeerStep::Rst { sid, code: 8 }); sid += 2; }          // rapid reset
             1 => { steps.push(hdr(sid, true)); sid += 2; }                                                       // complete requests, never read the answers
             2 => { steps.push(hdr(sid, false)); sid += 2; }                                                      // open without closing: beyond the limit => refused
-            3 => steps.push(PeerStep::Data { sid: open, n: 1, eos: false, pad: None }),                          // tiny DATA
-            4 => steps.push(PeerStep::Data { sid: open, n: 0, eos: false, pad: None }),                          // empty DATA
+            3 => steps.push(PeerStep::Data { sid: open, n: 1, eos: false, pad: tiny_pad }),                      // tiny DATA (possibly padded up to a "large" frame)
+            4 => steps.push(PeerStep::Data { sid: open, n: 0, eos: false, pad: tiny_pad }),                      // empty DATA
             5 => {                                                                                                // CONTINUATION flood
                 if i == 0 || kind == 13 { steps.push(fr(1, 0, sid, &[0x82])); }
                 steps.push(fr(9, 0, sid, if rng.gen_bool(0.5) { &[] } else { &[0x00, 0x03, 0x78, 0x2d, 0x61, 0x01, 0x31] }));
@@ -1273,7 +1283,7 @@ pub fn flood_bs(seed: u64) -> Scenario {
     steps.push(PeerStep::WaitQ);
     s.peer = steps;
     // write back-pressure on the endpoint under attack for a part of the run
-    match if kind == 14 { 3 } else if kind == 15 { 0 } else { rng.gen_range(0..4) } {
+    match if kind == 14 || kind == 16 { 3 } else if kind == 15 { 0 } else { rng.gen_range(0..4) } {
         0 => s.env.push(EnvStep { at: "q".into(), n: 1, op: EnvOp::Budget { ep: 1, n: Some(0) } }),
         1 => {
             s.env.push(EnvStep { at: "q".into(), n: 1, op: EnvOp::Budget { ep: 1, n: Some(0) } });
@@ -1321,7 +1331,7 @@ pub fn flood_bc(seed: u64) -> Scenario {
             r.ops = vec![SendOp::WaitQ { k: 1000 }];
         }
         r.read = match rng.gen_range(0..4) {
-            0 => ReadPol { idle: true, ..ReadPol::default() },
+            0 => ReadPol { idle: true, hold_q: Some(1000), ..ReadPol::default() },
             1 => ReadPol { push: true, info: true, ..ReadPol::default() },
             2 => ReadPol { release: "never".into(), ..ReadPol::default() },
             _ => ReadPol::default(),
@@ -1436,17 +1446,17 @@ pub fn inline_a(seed: u64) -> Scenario {
                     1 => InlineAct::Reserve { tag, n: pick(&mut rng, &[0usize, 1, 1000, 70000]) },
                     _ => InlineAct::Data { tag, n: pick(&mut rng, &[0usize, 1, 300, 16384, 40000]), eos: false },
                 };
-                s.inline.push(InlineStep { ep: 0, at: at.clone(), nth: next_nth(&mut rng, &mut last), act });
+                s.inline.push(InlineStep { min_q: 0, ep: 0, at: at.clone(), nth: next_nth(&mut rng, &mut last), act });
             }
             let fin = match rng.gen_range(0..5) {
                 0 => InlineAct::Reset { tag, code: pick(&mut rng, &[0u32, 8, 2]) },
                 1 => InlineAct::DropSend { tag },
                 _ => InlineAct::Data { tag, n: pick(&mut rng, &[0usize, 5, 2000]), eos: true },
             };
-            s.inline.push(InlineStep { ep: 0, at: at.clone(), nth: next_nth(&mut rng, &mut last), act: fin.clone() });
+            s.inline.push(InlineStep { min_q: 0, ep: 0, at: at.clone(), nth: next_nth(&mut rng, &mut last), act: fin.clone() });
             // clean-up at quiescence 4 for whatever did not fire (a no-op if the handle is gone; a second END_STREAM is refused by the library)
-            s.inline.push(InlineStep { ep: 0, at: "q".into(), nth: 4, act: InlineAct::Data { tag, n: 0, eos: true } });
-            s.inline.push(InlineStep { ep: 0, at: "q".into(), nth: 5, act: InlineAct::DropSend { tag } });
+            s.inline.push(InlineStep { min_q: 0, ep: 0, at: "q".into(), nth: 4, act: InlineAct::Data { tag, n: 0, eos: true } });
+            s.inline.push(InlineStep { min_q: 0, ep: 0, at: "q".into(), nth: 5, act: InlineAct::DropSend { tag } });
         } else {
             ops.push(SendOp::Data { n: pick(&mut rng, &[0usize, 10, 3000]), eos: true });
         }
@@ -1458,10 +1468,10 @@ pub fn inline_a(seed: u64) -> Scenario {
             let at = pick(&mut rng, &kinds).to_string();
             for _ in 0..rng.gen_range(1..5) {
                 let act = if rng.gen_bool(0.7) { InlineAct::PollData { tag } } else { InlineAct::Release { tag, n: pick(&mut rng, &[1usize, 100, 1000]) } };
-                s.inline.push(InlineStep { ep: 0, at: at.clone(), nth: next_nth(&mut rng, &mut last), act });
+                s.inline.push(InlineStep { min_q: 0, ep: 0, at: at.clone(), nth: next_nth(&mut rng, &mut last), act });
             }
-            s.inline.push(InlineStep { ep: 0, at: at.clone(), nth: next_nth(&mut rng, &mut last), act: InlineAct::DropRecv { tag } });
-            s.inline.push(InlineStep { ep: 0, at: "q".into(), nth: 5, act: InlineAct::DropRecv { tag } });
+            s.inline.push(InlineStep { min_q: 0, ep: 0, at: at.clone(), nth: next_nth(&mut rng, &mut last), act: InlineAct::DropRecv { tag } });
+            s.inline.push(InlineStep { min_q: 0, ep: 0, at: "q".into(), nth: 5, act: InlineAct::DropRecv { tag } });
         }
         s.reqs.push(r);
         // --- server side of the same stream
@@ -1472,16 +1482,16 @@ pub fn inline_a(seed: u64) -> Scenario {
             let mut last = rng.gen_range(0..8);
             let at = pick(&mut rng, &kinds).to_string();
             for _ in 0..rng.gen_range(0..3) {
-                s.inline.push(InlineStep { ep: 1, at: at.clone(), nth: next_nth(&mut rng, &mut last), act: InlineAct::Data { tag, n: pick(&mut rng, &[1usize, 300, 16384, 40000]), eos: false } });
+                s.inline.push(InlineStep { min_q: 0, ep: 1, at: at.clone(), nth: next_nth(&mut rng, &mut last), act: InlineAct::Data { tag, n: pick(&mut rng, &[1usize, 300, 16384, 40000]), eos: false } });
             }
             let fin = match rng.gen_range(0..4) {
                 0 => InlineAct::Reset { tag, code: 8 },
                 1 => InlineAct::DropSend { tag },
                 _ => InlineAct::Data { tag, n: pick(&mut rng, &[0usize, 5, 2000]), eos: true },
             };
-            s.inline.push(InlineStep { ep: 1, at: at.clone(), nth: next_nth(&mut rng, &mut last), act: fin });
-            s.inline.push(InlineStep { ep: 1, at: "q".into(), nth: 4, act: InlineAct::Data { tag, n: 0, eos: true } });
-            s.inline.push(InlineStep { ep: 1, at: "q".into(), nth: 5, act: InlineAct::DropSend { tag } });
+            s.inline.push(InlineStep { min_q: 0, ep: 1, at: at.clone(), nth: next_nth(&mut rng, &mut last), act: fin });
+            s.inline.push(InlineStep { min_q: 0, ep: 1, at: "q".into(), nth: 4, act: InlineAct::Data { tag, n: 0, eos: true } });
+            s.inline.push(InlineStep { min_q: 0, ep: 1, at: "q".into(), nth: 5, act: InlineAct::DropSend { tag } });
         } else {
             sops.push(SendOp::Data { n: pick(&mut rng, &[0usize, 10, 3000, 30000]), eos: true });
         }
@@ -1491,18 +1501,31 @@ pub fn inline_a(seed: u64) -> Scenario {
             let at = pick(&mut rng, &kinds).to_string();
             for _ in 0..rng.gen_range(1..5) {
                 let act = if rng.gen_bool(0.7) { InlineAct::PollData { tag } } else { InlineAct::Release { tag, n: pick(&mut rng, &[1usize, 100, 1000]) } };
-                s.inline.push(InlineStep { ep: 1, at: at.clone(), nth: next_nth(&mut rng, &mut last), act });
+                s.inline.push(InlineStep { min_q: 0, ep: 1, at: at.clone(), nth: next_nth(&mut rng, &mut last), act });
             }
-            s.inline.push(InlineStep { ep: 1, at: at.clone(), nth: next_nth(&mut rng, &mut last), act: InlineAct::DropRecv { tag } });
-            s.inline.push(InlineStep { ep: 1, at: "q".into(), nth: 5, act: InlineAct::DropRecv { tag } });
+            s.inline.push(InlineStep { min_q: 0, ep: 1, at: at.clone(), nth: next_nth(&mut rng, &mut last), act: InlineAct::DropRecv { tag } });
+            s.inline.push(InlineStep { min_q: 0, ep: 1, at: "q".into(), nth: 5, act: InlineAct::DropRecv { tag } });
         }
         s.srv.push(SrvProg { ops: sops, read, note: String::new() });
     }
     if rng.gen_bool(0.4) {
         for k in 0..rng.gen_range(1..3u32) {
-            s.inline.push(InlineStep { ep: 0, at: pick(&mut rng, &kinds).to_string(), nth: rng.gen_range(2..30), act: InlineAct::SendRequest { tag: 50 + k } });
+            s.inline.push(InlineStep { min_q: 0, ep: 0, at: pick(&mut rng, &kinds).to_string(), nth: rng.gen_range(2..30), act: InlineAct::SendRequest { tag: 50 + k } });
         }
     }
     s.drop_sr_when_done = true;
+    if seed % 3 == 0 {
+        // The last request handle goes away inside a transport callback of a late poll of the client connection: every
+        // stream is complete by then and the remaining handles are dropped at quiescence 6 (which wakes the connection);
+        // the connection must still notice that it has become idle and close.
+        s.inline.retain(|st| !matches!(st.act, InlineAct::SendRequest { .. }));
+        for r in s.reqs.iter_mut() {
+            if r.read.script.is_empty() {
+                r.read.hold_q = Some(6);
+            }
+        }
+        s.inline.push(InlineStep { min_q: 6, ep: 0, at: pick(&mut rng, &["read", "read", "write", "flush"]).to_string(), nth: 0, act: InlineAct::DropSr });
+        s.inline.push(InlineStep { min_q: 0, ep: 0, at: "q".into(), nth: 8, act: InlineAct::DropSr });
+    }
     s
 }
